@@ -146,8 +146,10 @@ def run_case(spec):
       add('fixed-response-lower', 'fixed-incremental-response-lower', 'incremental_response_lower=%.12g, lower x cost=%.12g' % (irl, low * cost))
     if not (iru == up * cost or util.close(iru, up * cost, rtol=1e-9, atol=1e-9 * abs(sc))):
       add('fixed-response-upper', 'fixed-incremental-response-upper', 'incremental_response_upper=%.12g, upper x cost=%.12g' % (iru, up * cost))
-    p_want = float(1.0 - stats.t.cdf((thr_base * cost - loc) / sc, rr.df))
-    if abs(float(row['probability']) - p_want) > 1e-7:
+    zthr = (thr_base * cost - loc) / sc
+    p_want = float(1.0 - stats.t.cdf(zthr, rr.df))
+    p_tol = 1e-9 + float(stats.t.pdf(zthr, rr.df)) * (rt * vol / sc + rt * 10 * abs(zthr)) * 10
+    if abs(float(row['probability']) - p_want) > p_tol:
       add('fixed-probability', 'fixed-probability', 'probability=%.10g, P(effect/cost > %g)=%.10g' % (float(row['probability']), thr_base, p_want))
   elif label == 'variable' and want_label == 'variable':
     rc = tbrref.Ref(xc_pre, yc_pre, xc_t, yc_t)
